@@ -351,6 +351,12 @@ class SNum:
             raise Unsupported(f"format spec '{spec}' on a symbolic number")
         return token_for(self)
 
+    def to_bytes(self, length=1, byteorder="big", **k):
+        if length != 1:
+            raise Unsupported("to_bytes of a symbolic integer with length != 1")
+        from .fsmodel_sym import BytePart
+        return BytePart(self)
+
     # numpy-scalar compatible helpers
     def item(self):
         return self
